@@ -21,7 +21,7 @@ from .common import NCPU, PY, VERIF, MachineryError, Result, scratch, use_repo
 
 VIEWS = ["flatten", "iterate", "summary", "json", "json_back"]
 HANG_S = 20          # first pass (in-process alarm); confirmed with 60 s in an isolated process
-DEPTHS = [-5, 0, 1, 2, 10, 10**6]
+DEPTHS = [-5, 0, 1, 2, 10, 10**6, 2**31, 2**63 - 1, -2**31]
 
 
 def strings(alphabet, maxlen):
